@@ -23,6 +23,9 @@ DRIVERS = {
     "remove-then-close-fd": ["add_reader f1", "settle", "remove_reader f1", "closefd f1", "add_reader f3", "ready f3", "settle", "close"],
     "re-add": ["add_reader f1", "remove_reader f1", "add_reader f1", "ready f1", "settle", "close"],
     "close-twice": ["add_reader f1", "settle", "close", "close"],
+    # both fds are ready in one select round; the first callback removes the registration of the second
+    "callback-removes-other": ["add_writer f2", "add_reader f1 removes_writer:f2", "ready f2", "ready f1", "settle",
+                               "unready f2", "ready f1", "settle", "close"],
     "remove-then-close-same-fd": ["add_reader f1", "settle", "remove_reader f1", "closefd f1", "settle", "close"],
 }
 
@@ -155,12 +158,17 @@ def run(ch, driver, waker_capacity=2, sched_factory=None, program=None):
     st = None
     trace = []
 
-    def make_cb(fd):
+    def make_cb(fd, then=None):
         def cb():
             if sched.cur is not sched.main:
                 problems.append(("callback-on-selector-thread", "%s callback ran on %s" % (fd.name, sched.cur.name)))
+            inst = box["st"]
+            if inst is not None and fd not in inst._readers and fd not in inst._writers:
+                problems.append(("dispatched-after-removal", "%s callback ran although %s is no longer registered" % (fd.name, fd.name)))
             fd.dispatched += 1
             fd.ready = False       # the handler consumes the event
+            if then is not None:
+                then()
         return cb
 
     def selector_idle():
@@ -192,8 +200,15 @@ def run(ch, driver, waker_capacity=2, sched_factory=None, program=None):
                 sched.point("loop:after-callback")
             trace.append(op)
             name, _, arg = op.partition(" ")
+            arg, _, extra = arg.partition(" ")
             if name == "add_reader":
-                st.add_reader(fds[arg], make_cb(fds[arg]))
+                then = None
+                if extra.startswith("removes_writer:"):
+                    other = fds[extra.split(":")[1]]
+                    then = (lambda other=other: st.remove_writer(other))
+                st.add_reader(fds[arg], make_cb(fds[arg], then))
+            elif name == "unready":
+                fds[arg].ready = False
             elif name == "add_writer":
                 st.add_writer(fds[arg], make_cb(fds[arg]))
             elif name == "remove_reader":
@@ -276,7 +291,7 @@ def judge(driver, o):
 class C40(Check):
     id = "C40"
     level = "model_checking"
-    rule = ("PRIMARY: 10 loop-thread driver programs (add/remove reader and writer, readiness before/after registration, repeated "
+    rule = ("PRIMARY: 11 loop-thread driver programs (add/remove reader and writer, readiness before/after registration, repeated "
             "readiness, fd closed after removal, immediate close, close twice) on the real SelectorThread with shim "
             "threading.Condition/Thread, select.select and socketpair (waker capacity 2, so BlockingIOError is reachable); "
             "scheduling points at every condition acquire/release/wait, thread start/join, waker send/recv, select "
